@@ -10,7 +10,7 @@
 (when (= mode "codes")
   (for c 0 256
     (print "exit " c " " (sh (string "exit " c))))
-  (each s [1 2 3 6 9 10 12 13 14 15]
+  (each s [1 2 3 6 9 10 12 14 15]
     (print "signal " s " " (sh (string "kill -" s " $$"))))
   # :x raises on non-zero
   (print "x 0 " (sh "exit 0" :px))
